@@ -191,7 +191,7 @@ def gen_case(rng, k):
             "peaks": peaks.tolist(), "bufs": bufs, "perm": rng.permutation(n).tolist(),
             "keep": keep.tolist(), "upsample": [False, False, 5, True][k % 4],
             "pipeline": "fast" if k % 2 == 0 else "full",
-            "scale": [None, None, 1e-6, None, 1e-3, 1e-9][(k // 2) % 6]}
+            "scale": [None, 1e-6, None, 1e-3, None, 1e-9][(k // 7) % 6]}
 
 
 def search(ctx, boost=1, focus=()):
